@@ -133,6 +133,10 @@ func explore(c *core.Ctx, g *Group, alone map[string]string, threads [][]string,
 		if x.Horizon {
 			c.Fail(core.Sig("group="+g.Name, "horizon"), cs, sz, "execution ends within 400 scheduling points", "still running")
 		}
+		for _, pf := range vsync.PoolFaults {
+			c.Fail(core.Sig("group="+g.Name, "pool-discipline", pf), cs, sz, "every pooled object is put back once", pf)
+		}
+		vsync.PoolFaults = nil
 		var key strings.Builder
 		for ti, r := range recs {
 			if p := x.Panics[ti]; p != nil {
